@@ -17,7 +17,7 @@ def lexer_reads_characters(ctx):
             bad.append((x, "`%s`" % render(x)[:60]))
         if x["k"] == "Cast" and str(x.get("ty")) == "char" and str(peel(x["e"]).get("ty", "")).lstrip("&") == "u8":
             bad.append((x, "`%s` (a byte read as a character)" % render(x)[:60]))
-        if x["k"] == "Index" and "str" in str(peel(x["e"]).get("ty", "")) or (x["k"] == "Index" and str(peel(x["e"]).get("ty", "")).lstrip("&") == "alloc::string::String"):
+        if x["k"] == "Index" and str(peel(x["e"]).get("ty", "")).replace("&", "").replace("mut ", "").strip() in ("str", "alloc::string::String"):
             bad.append((x, "`%s` (byte-offset slicing of the query text)" % render(x)[:60]))
     src = [c for c in walk_exprs(h) if c["k"] == "MCall" and c["m"] == "chars"]
     n += 1
